@@ -13,6 +13,7 @@ def instances(tier, rng):
     us = C.spread(dag, 200 if quick else 495)
     if not quick:
         us = us + C.spread(vlib.universe("dag", 5, k=3, w=2, cap=6), 1500)
+    us = us + C.motifs()[0]
     insts = []
     for u in us:
         cfgs = [{}, {"mode": "node"}, {"wt": "float", "num": 1, "den": 2},
